@@ -445,6 +445,11 @@ __visible_default void *__cxa_begin_catch(void *exception)
 	if (unlikely(real_cxa_begin_catch == NULL))
 		mcount_hook_functions();
 
+	/* library calls made by the runtime below this frame are not landing-pad calls */
+	mtdp = get_thread_data();
+	if (!check_thread_data(mtdp) && unlikely(mtdp->in_exception))
+		mtdp->exception_frame = (unsigned long)__builtin_frame_address(0);
+
 	obj = real_cxa_begin_catch(exception);
 
 	mtdp = get_thread_data();
@@ -482,6 +487,10 @@ __visible_default void __cxa_guard_abort(void *guard_obj)
 
 	if (unlikely(real_cxa_guard_abort == NULL))
 		mcount_hook_functions();
+
+	mtdp = get_thread_data();
+	if (!check_thread_data(mtdp) && unlikely(mtdp->in_exception))
+		mtdp->exception_frame = (unsigned long)__builtin_frame_address(0);
 
 	real_cxa_guard_abort(guard_obj);
 
